@@ -68,7 +68,7 @@ func cmdRetry(args map[string]string) {
 					if !thorough && ri > 1 && n > 2 {
 						continue
 					}
-					evs = append(evs, retryCase(seq, cn, rate))
+					evs = append(evs, retryCase(seq, cn, rate)...)
 					st.Executions++
 				}
 			}
@@ -106,7 +106,9 @@ type baseErr struct{ id int }
 
 func (b baseErr) Error() string { return fmt.Sprintf("base%d", b.id) }
 
-func retryCase(seq []string, cancelAt string, rate time.Duration) rec.Ev {
+// retryCase runs one scenario; a scenario without cancellation invokes the function ExponentialRetry returned a second
+// time (same script): every invocation is a fresh retry loop (second event, "again": true)
+func retryCase(seq []string, cancelAt string, rate time.Duration) []rec.Ev {
 	ctx, cancel := context.WithCancel(context.Background())
 	defer cancel()
 	if cancelAt == "pre" {
@@ -166,9 +168,11 @@ func retryCase(seq []string, cancelAt string, rate time.Duration) rec.Ev {
 		fmt.Sscanf(cancelAt, "before:%d", &i)
 		cancelAt = fmt.Sprintf("wait:%d", i-1)
 	}
-	var res interface{}
-	var err error
-	p := safeCall(func() { res, err = fn() })
+	var out []rec.Ev
+	invocations := 1
+	if cancelAt == "none" {
+		invocations = 2
+	}
 	ckind, cidx := cancelAt, 0
 	if n, _ := fmt.Sscanf(cancelAt, "during:%d", &cidx); n == 1 {
 		ckind = "during"
@@ -181,27 +185,35 @@ func retryCase(seq []string, cancelAt string, rate time.Duration) rec.Ev {
 	if eff <= 0 {
 		eff = 300 * time.Millisecond
 	}
-	ev := rec.Ev{"ev": "retry", "seq": seq, "cancel": cancelAt, "ckind": ckind, "cidx": cidx, "rate_ns": int64(rate), "eff_rate_ns": int64(eff), "calls": calls, "panic": p != ""}
-	if res == nil {
-		ev["res"] = 0
-	} else {
-		ev["res"] = res
-	}
-	switch e := err.(type) {
-	case nil:
-		ev["err"] = "nil"
-	case baseErr:
-		ev["err"] = fmt.Sprintf("base%d", e.id)
-	default:
-		if errors.Is(err, context.Canceled) {
-			ev["err"] = "canceled"
+	for inv := 0; inv < invocations; inv++ {
+		calls, delays, waits = 0, nil, 0
+		var res interface{}
+		var err error
+		p := safeCall(func() { res, err = fn() })
+		ev := rec.Ev{"ev": "retry", "seq": seq, "cancel": cancelAt, "ckind": ckind, "cidx": cidx, "rate_ns": int64(rate), "eff_rate_ns": int64(eff), "calls": calls, "panic": p != "", "again": inv > 0}
+		if res == nil {
+			ev["res"] = 0
 		} else {
-			ev["err"] = "other"
+			ev["res"] = res
 		}
+		switch e := err.(type) {
+		case nil:
+			ev["err"] = "nil"
+		case baseErr:
+			ev["err"] = fmt.Sprintf("base%d", e.id)
+		default:
+			if errors.Is(err, context.Canceled) {
+				ev["err"] = "canceled"
+			} else {
+				ev["err"] = "other"
+			}
+		}
+		if delays == nil {
+			delays = []map[string]any{}
+		}
+		ev["delays"] = delays
+		out = append(out, ev)
 	}
-	if delays == nil {
-		delays = []map[string]any{}
-	}
-	ev["delays"] = delays
-	return ev
+	return out
 }
+
